@@ -489,8 +489,8 @@ static void prop_schur_gmres(Tape &t, Ctx &c) {
 
 static std::vector<Prop> props() {
     return {
-        Prop("schur_dense", prop_schur_dense, 700, 6000, 100, 30, {1}, 2, 8),
-        Prop("schur_gmres", prop_schur_gmres, 300, 2500, 100, 30, {1}, 2, 8),
+        Prop("schur_dense", prop_schur_dense, 700, 40000, 100, 20, {1}, 2, 8),
+        Prop("schur_gmres", prop_schur_gmres, 300, 15000, 100, 20, {1}, 2, 8),
     };
 }
 static std::vector<Enum> enums() { return {}; }
